@@ -41,10 +41,17 @@ where
     }
 
     pub fn reassemble(&mut self, mut buf: Bytes) -> Option<T> {
+        if buf.len() < 4 {
+            return None;
+        }
         let mut head = buf.split_to(4);
         let id = head.get_u16();
         let total = head.get_u8();
         let seq = head.get_u8();
+        // total and seq are 7 bits wide, see ReassembleQueue::bitmap
+        if total == 0 || total > 127 || seq >= total {
+            return None;
+        }
         // tracing::trace!("reassemble id: {} total: {} seq: {}", id, total, seq);
         if total == 1 && seq == 0 {
             T::from_buffer(buf)
